@@ -24,7 +24,7 @@ theorem setWindow_accept (w : World) (p : Nat) (n : Int) (h : 1 ≤ n ∧ n ≤ 
       ({ w with protos := w.protos.set p { w.proto p with window := n.toNat }, log := w.log ++ [.retNone] }, none) := by
   have h1 : (0 < n ∧ n ≤ (Config.maxWindow : Int)) := by rw [ConfigOk.maxWindow_ok]; omega
   have h2 : min n.toNat Config.maxWindow = n.toNat := by rw [ConfigOk.maxWindow_ok]; omega
-  simp [apiSetWindow, h1, h2, setProto, Step.seq, Step.mod, emit]
+  simp [apiSetWindow, h1, h2, setProto, Step.seq, Step.mod, emit, World.emit]
 
 theorem setTimeout_reject (w : World) (p : Nat) (n : Int) (h : ¬ (1 ≤ n ∧ n ≤ 1024)) :
     apiSetTimeout p (.int n) w = (w, some .value) := by
@@ -37,7 +37,7 @@ theorem setTimeout_accept (w : World) (p : Nat) (n : Int) (h : 1 ≤ n ∧ n ≤
     apiSetTimeout p (.int n) w =
       ({ w with protos := w.protos.set p { w.proto p with initialT := n.toNat }, log := w.log ++ [.retNone] }, none) := by
   have h1 : (1 ≤ n ∧ n ≤ (Config.timeoutMaxInitial : Int)) := by rw [ConfigOk.timeoutMax_ok]; omega
-  simp [apiSetTimeout, h1, setProto, Step.seq, Step.mod, emit]
+  simp [apiSetTimeout, h1, setProto, Step.seq, Step.mod, emit, World.emit]
 
 theorem setBandwith_reject (w : World) (p : Nat) (bw f : Rat) (h : bw ≤ 0 ∨ f ≤ 0) :
     apiSetBandwith p bw f w = (w, some .value) := by
@@ -51,7 +51,7 @@ theorem setBandwith_accept (w : World) (p : Nat) (bw f : Rat) (hb : 0 < bw) (hf 
       ({ w with protos := w.protos.set p { w.proto p with bandwith := bw, factor := f }, log := w.log ++ [.retNone] }, none) := by
   have h1 : ¬ bw ≤ 0 := Rat.not_le.mpr hb
   have h2 : ¬ f ≤ 0 := Rat.not_le.mpr hf
-  simp [apiSetBandwith, h1, h2, setProto, Step.seq, Step.mod, emit]
+  simp [apiSetBandwith, h1, h2, setProto, Step.seq, Step.mod, emit, World.emit]
 
 /-! ### connect() -/
 
@@ -62,7 +62,7 @@ theorem setBandwith_accept (w : World) (p : Nat) (bw f : Rat) (hb : 0 < bw) (hf 
 theorem connect_invalid (w : World) (p : Nat) (a : ConnectArgs) (hal : allowed w p 0 = true)
     (h : checkConnect a = false) :
     apiConnect p a w = (refusedWith w (.retFail .value), none) := by
-  simp [apiConnect, Step.read, hal, h, emit, Step.mod, refusedWith]
+  simp [apiConnect, Step.read, hal, h, emit, World.emit, Step.mod, refusedWith]
 
 /-- a string over 65535 bytes (or any other encoding failure): ValueError, nothing else changes -/
 theorem connect_unencodable (w : World) (p : Nat) (a : ConnectArgs) (hal : allowed w p 0 = true)
@@ -71,7 +71,7 @@ theorem connect_unencodable (w : World) (p : Nat) (a : ConnectArgs) (hal : allow
     (e ≠ .value ∧ apiConnect p a w = (w, some e)) := by
   by_cases hv : e = .value
   · left; subst hv
-    exact ⟨rfl, by simp [apiConnect, Step.read, hal, hc, he, emit, Step.mod, refusedWith]⟩
+    exact ⟨rfl, by simp [apiConnect, Step.read, hal, hc, he, emit, World.emit, Step.mod, refusedWith]⟩
   · right
     exact ⟨hv, by simp [apiConnect, Step.read, hal, hc, he, hv, Step.raise]⟩
 
@@ -80,14 +80,14 @@ theorem connect_unencodable (w : World) (p : Nat) (a : ConnectArgs) (hal : allow
 theorem publish_bad_qos (w : World) (p : Nat) (t : PyStr) (pl : Payload) (q : Int) (r : Bool)
     (hal : allowed w p 4 = true) (h : ¬ (0 ≤ q ∧ q < 3)) :
     apiPublish p t pl q r w = (refusedWith w (.retFail .value), none) := by
-  simp [apiPublish, Step.read, hal, h, emit, Step.mod, refusedWith]
+  simp [apiPublish, Step.read, hal, h, emit, World.emit, Step.mod, refusedWith]
 
 /-- QoS 0 with something that cannot be encoded (payload of another type, topic not a str, over-long
     topic): failed Deferred with that error, nothing else changes -/
 theorem publish_qos0_unencodable (w : World) (p : Nat) (t : PyStr) (pl : Payload) (r : Bool)
     (hal : allowed w p 4 = true) (e : Err) (he : encodePublishPy t pl 0 r none = .error e) :
     apiPublish p t pl 0 r w = (refusedWith w (.retFail e), none) := by
-  simp [apiPublish, Step.read, hal, he, emit, Step.mod, refusedWith]
+  simp [apiPublish, Step.read, hal, he, emit, World.emit, Step.mod, refusedWith]
 
 /-- QoS 1/2: the identifier has been allocated already; apart from the counter nothing changes -/
 theorem publish_qos12_unencodable (w : World) (p : Nat) (t : PyStr) (pl : Payload) (q : Int) (r : Bool)
@@ -97,7 +97,7 @@ theorem publish_qos12_unencodable (w : World) (p : Nat) (t : PyStr) (pl : Payloa
       ({ w with nextId := scanId w 65535 w.nextId, idAllocs := w.idAllocs + 1, log := w.log ++ [.retFail e] }, none) := by
   have h1 : (0 ≤ q ∧ q < 3) := by omega
   have h2 : ¬ q = 0 := by omega
-  simp [apiPublish, Step.read, hal, h1, h2, makeId, Step.seq, Step.mod, he, emit]
+  simp [apiPublish, Step.read, hal, h1, h2, makeId, Step.seq, Step.mod, he, emit, World.emit]
 
 /-- what cannot be encoded fails with ValueError or TypeError -/
 theorem publish_error_class (t : PyStr) (pl : Payload) (q : Nat) (r : Bool) (m : Option Int) (e : Err)
@@ -165,20 +165,20 @@ theorem subscribe_wrong_type (w : World) (p : Nat) (q : Int) (hal : allowed w p 
     (hwin : Ents.count w.ents (w.paddr p) .sub < (w.proto p).window) :
     apiSubscribe p .other q w = (refusedWith w (.retFail .type), none) := by
   have : ¬ (Ents.count w.ents (w.paddr p) .sub ≥ (w.proto p).window) := by omega
-  simp [apiSubscribe, Step.read, hal, this, emit, Step.mod, refusedWith]
+  simp [apiSubscribe, Step.read, hal, this, emit, World.emit, Step.mod, refusedWith]
 
 theorem subscribe_bad_qos (w : World) (p : Nat) (s : String) (q : Int) (hal : allowed w p 2 = true)
     (hwin : Ents.count w.ents (w.paddr p) .sub < (w.proto p).window) (h : ¬ (0 ≤ q ∧ q < 3)) :
     apiSubscribe p (.str s) q w = (refusedWith w (.retFail .value), none) := by
   have : ¬ (Ents.count w.ents (w.paddr p) .sub ≥ (w.proto p).window) := by omega
   have h' : q < 0 ∨ 3 ≤ q := by omega
-  simp [apiSubscribe, Step.read, hal, this, h', emit, Step.mod, refusedWith]
+  simp [apiSubscribe, Step.read, hal, this, h', emit, World.emit, Step.mod, refusedWith]
 
 /-- a call made with the window full fails with MQTTWindowError and changes nothing (C07) -/
 theorem subscribe_window_full (w : World) (p : Nat) (a : SubArg) (q : Int) (hal : allowed w p 2 = true)
     (hwin : Ents.count w.ents (w.paddr p) .sub ≥ (w.proto p).window) :
     apiSubscribe p a q w = (refusedWith w (.retFail .window), none) := by
-  simp [apiSubscribe, Step.read, hal, hwin, emit, Step.mod, refusedWith]
+  simp [apiSubscribe, Step.read, hal, hwin, emit, World.emit, Step.mod, refusedWith]
 
 theorem unsubscribe_wrong_type (w : World) (p : Nat) (hal : allowed w p 3 = true)
     (hwin : Ents.count w.ents (w.paddr p) .unsub < (w.proto p).window) :
@@ -186,7 +186,7 @@ theorem unsubscribe_wrong_type (w : World) (p : Nat) (hal : allowed w p 3 = true
       ({ w with nextId := scanId w 65535 w.nextId, idAllocs := w.idAllocs + 1, log := w.log ++ [.retFail .type] }, none) := by
   have : ¬ (((w.protos.get? p).getD default).window ≤ Ents.count w.ents ((w.protos.get? p).getD default).addr .unsub) := by
     simp only [World.paddr, World.proto] at hwin; omega
-  simp [apiUnsubscribe, Step.read, hal, makeId, Step.seq, Step.mod, World.paddr, World.proto, emit, this]
+  simp [apiUnsubscribe, Step.read, hal, makeId, Step.seq, Step.mod, World.paddr, World.proto, emit, World.emit, this]
 
 /-! Non-vacuity -/
 example : checkConnect { clientId := "c", keepalive := 65536, version := .v311, cleanStart := true } = false := by decide
